@@ -19,7 +19,7 @@ def crate_dir():
     dst = os.path.join(CACHE, "kani-src")
     shutil.rmtree(dst, ignore_errors=True)
     shutil.copytree(src, dst, ignore=shutil.ignore_patterns("target"))
-    t = open(os.path.join(dst, "Cargo.toml")).read().replace('"/repo/acts"', '"%s/acts"' % REPO)
+    t = open(os.path.join(dst, "Cargo.toml")).read().replace('"/repo/', '"%s/' % REPO)
     open(os.path.join(dst, "Cargo.toml"), "w").write(t)
     return dst
 
